@@ -2,8 +2,10 @@ package sched
 
 import (
 	"context"
+	"fmt"
 	"math/rand"
 	"runtime"
+	"strings"
 	"sync"
 	"sync/atomic"
 	"time"
@@ -59,6 +61,10 @@ func Stress(cfg StressConfig) *Outcome {
 		wg.Add(1)
 		go func(a *actor) {
 			defer wg.Done()
+			gid := curGID()
+			c.mu.Lock()
+			c.byGID[gid] = a
+			c.mu.Unlock()
 			rng := rand.New(rand.NewSource(cfg.Seed + int64(a.id)*7919))
 			kinds := []string{"inc", "inc", "fau", "fau", "find", "find", "upd0", "wtx", "sess"}
 			for n := 0; time.Now().Before(deadline) && calls.Load() < int64(cfg.MaxCalls); n++ {
@@ -90,11 +96,25 @@ func Stress(cfg StressConfig) *Outcome {
 	go func() { wg.Wait(); close(done) }()
 	select {
 	case <-done:
-	case <-time.After(time.Duration(cfg.Millis)*time.Millisecond + 10*time.Second):
+	// longer than the engine's one-minute token timeout: only a real wedge is reported here (a leaked
+	// token shows up through the timeouts in the history and through the probe of the C16 monitors)
+	case <-time.After(time.Duration(cfg.Millis)*time.Millisecond + 90*time.Second):
 		out.Stalled = true
-		out.viol("C16", "wedged:stress", "stress goroutines did not finish", "")
+		var where []string
+		for id, st := range allGoroutines() {
+			if !lungoBase[id] && strings.Contains(st.Stack, "github.com/256dpi/lungo") {
+				lines := strings.Split(st.Stack, "\n")
+				top := ""
+				for i := 0; i < len(lines) && i < 12; i += 2 {
+					top += strings.TrimSpace(lines[i]) + " < "
+				}
+				where = append(where, st.Wait+": "+top)
+			}
+		}
+		out.viol("C16", "wedged:stress", "stress goroutines did not finish", fmt.Sprintf("calls so far %d; %s", calls.Load(), strings.Join(where, " || ")))
 	}
 	setHooks(nil)
+	w.Store.setHook(nil)
 	if out.Stalled {
 		return out
 	}
